@@ -65,6 +65,11 @@ class FnContract:
         """[(exception class name, z3 condition or None for 'may')]"""
         return []
 
+    def axioms(self, K):
+        """Definitional instances of specification functions (unfoldings) needed to state pre/post: assumed both
+        when verifying and at call sites. They must be instances of the spec functions' definitions only."""
+        return []
+
     # -- call-site use -----------------------------------------------------------------------
     def apply(self, ip, args, kwargs):
         ctx = ip.ctx
@@ -77,24 +82,44 @@ class FnContract:
         K = CallView(ip, full, {}, ctx.heap)
         for label, f in labelled(self.pre(K), 'pre'):
             ctx.oblige(f'call:{self.qual}.pre.{label}', zb(f), kind='callee-pre')
+        for label, f in labelled(self.axioms(K), 'ax'):
+            ctx.assume(zb(f))
         if self.frame == 'havoc':
+            for a in full:
+                ctx.escape(a)
             h0 = ctx.heap
-            ctx.heap = ctx.fresh_heap('call')
-            ctx.assume(ctx.heap.alloc >= h0.alloc)
+            if hasattr(self, 'havoc_heap'):
+                ctx.heap = self.havoc_heap(ip, h0)
+            else:
+                ctx.heap = ctx.fresh_heap('call')
+                ctx.assume(ctx.heap.alloc >= h0.alloc)
+            ctx.heap = ctx.keep_owned(h0, ctx.heap)
         K.heap_after = ctx.heap
+        event = {'kind': 'call', 'callee': self.qual, 'args': full, 'heap_before': K.heap, 'heap_after': ctx.heap}
+        ctx.ghost.setdefault('events', []).append(event)
         for cls, cond in self.may_raise(K):
-            c = cond if cond is not None else ctx.fresh(f'raises_{cls}', Bool)
+            c = cond if cond is not None else ctx.fresh(f'raises_{cls.replace(" ", "_")}', Bool)
             if ctx.branch(c):
-                exc = make_exc(cls, [])
+                exc = self.make_exception(ip, cls)
                 out = Outcome('raise', exc=exc)
+                event['outcome'] = out
                 for label, f in labelled(self.post(K, out), 'post'):
                     ctx.assume(zb(f))
                 raise PyRaise(exc)
         res = self.fresh_result(ip)
         out = Outcome('return', value=res)
+        event['outcome'] = out
         for label, f in labelled(self.post(K, out), 'post'):
             ctx.assume(zb(f))
         return norm(ip, res)
+
+    def make_exception(self, ip, cls):
+        """cls: a class name, or 'sub:<Name>' for an exception of unknown class below <Name>"""
+        if cls.startswith('sub:'):
+            exc = make_exc(None, [])
+            exc.f['cls'] = ('sub', cls[4:])
+            return exc
+        return make_exc(cls, [])
 
     def fresh_result(self, ip):
         ctx = ip.ctx
@@ -114,8 +139,10 @@ class FnContract:
         return S(v)
 
 
-def verify_run(contract, collect=None):
-    """The `run(ctx)` function for Engine.explore that checks `contract` against the real body."""
+def verify_run(contract, case=None):
+    """The `run(ctx)` function for Engine.explore that checks `contract` against the real body.
+    case: optional (label, extra_pre(K)) — one member of a case split of the precondition (the split's
+    exhaustiveness is a separate obligation, see case_coverage_run)."""
 
     def run(ctx):
         ip = Interp(ctx)
@@ -127,6 +154,12 @@ def verify_run(contract, collect=None):
         ctx.ghost['args'] = args
         for label, f in labelled(contract.pre(K), 'pre'):
             ctx.assume(zb(f))
+        for label, f in labelled(contract.axioms(K), 'ax'):
+            ctx.assume(zb(f))
+        if case is not None:
+            ctx.ghost['case_label'] = case[0]
+            for label, f in labelled(case[1](K), 'case'):
+                ctx.assume(zb(f))
         ctx.ghost['pre_pc_len'] = len(ctx.pc)
         try:
             val = ip.call_function(contract.qual, list(args))
@@ -138,5 +171,28 @@ def verify_run(contract, collect=None):
         for label, f in labelled(contract.post(K, out), 'post'):
             ctx.oblige(f'{contract.qual}.post.{label}', zb(f), kind='post', outcome=out.kind)
         return out
+
+    return run
+
+
+def case_coverage_run(contract):
+    """One obligation: the cases of the split cover the precondition."""
+
+    def run(ctx):
+        ip = Interp(ctx)
+        ctx.heap = Heap.fresh('0')
+        ctx.assume(ctx.heap.alloc >= 0)
+        args = contract.params(ip)
+        K = CallView(ip, args, {}, ctx.heap)
+        ctx.ghost['K'] = K
+        for label, f in labelled(contract.pre(K), 'pre'):
+            ctx.assume(zb(f))
+        for label, f in labelled(contract.axioms(K), 'ax'):
+            ctx.assume(zb(f))
+        alts = []
+        for clabel, fn in contract.cases():
+            alts.append(z3.And([zb(f) for _, f in labelled(fn(K), 'case')]))
+        ctx.oblige(f'{contract.qual}.case-split-exhaustive', z3.Or(alts), kind='case-split')
+        return Outcome('return', value=C(None))
 
     return run
